@@ -142,7 +142,7 @@ def load_findings(prop):
     path = os.path.join(VERIF, 'known_findings.json')
     if not os.path.exists(path):
         return []
-    return [f for f in json.load(open(path))['findings'] if f['property'] == prop]
+    return [f for f in json.load(open(path))['findings'] if prop is None or f['property'] == prop]
 
 
 def write_evidence(ctx, level, coverage, assumptions):
